@@ -90,10 +90,25 @@ def run(ctx):
             v = 40 if thorough else 14      # the field boundaries of the block's records, the last record first
         elif d and d[0]["w"] == "csize" and d[0]["v"] == "big":
             v = 6 if thorough else 2        # (each of these makes the reader allocate gigabytes)
+        elif d and d[0]["w"] == "payload" and d[0]["v"] == "literal":
+            v = 10 if thorough else 4
         elif d and d[0]["w"] in ("csize", "namelen", "count", "payload", "appendlong"):
             v = 8 if thorough else 3
         chosen.append((o, v))
-    for o in pairs[:npairs]:
+    # always run: a checksum field set to a special value together with a payload flip that only the checksum can
+    # detect, on the same block (a reader that is lenient about "no checksum" would return different records)
+    must, rest = [], []
+    for o in pairs:
+        ds = o["c"]["ds"]
+        ws = sorted((d["w"], d["v"]) for d in ds)
+        if ds[0]["b"] == ds[1]["b"] and ws[0][0] == "crc" and ws[0][1] in ("zero", "ones") and ws[1] == ("payload", "literal"):
+            must.append(o)
+        else:
+            rest.append(o)
+    for o in must:
+        chosen.append((o, 3 if thorough else 2))
+    ctx.extra["special_crc_x_decodable_payload_cases"] = len(must)
+    for o in rest[:npairs]:
         chosen.append((o, 1))
     # pure random byte strings, judged as the taxonomy cases they are instances of
     by = {key(o["c"]): o for o in exported}
